@@ -764,8 +764,12 @@ pub fn pay_funding_reply(
         let msg = execute_insurance_fund_withdrawal(deps.as_ref(), funding_payment.value)?;
         response = response.add_submessage(msg);
     } else if funding_payment.is_positive() && !funding_payment.is_zero() {
-        let msg = execute_transfer_to_insurance_fund(deps.as_ref(), env, funding_payment.value)?;
-        response = response.add_submessage(msg);
+        // an empty vault has nothing to hand over, a zero transfer would fail the settlement
+        if let Some(msg) =
+            execute_transfer_to_insurance_fund(deps.as_ref(), env, funding_payment.value)?
+        {
+            response = response.add_submessage(msg);
+        }
     };
 
     Ok(response.add_attributes(vec![
